@@ -168,21 +168,46 @@ _c("C16",
    "Coq proof (induction over hierarchies on a model of signature and stub generation) + model/implementation correspondence in vm_compute")
 
 _c("C20",
-   "PARTIAL. Coq theorems (Props/C20.v, closed under the global context) over a model in which a thread is a list of atomic "
-   "read/write actions on shared cells and interleavings are the inductive shuffle of any number of threads (any number of "
-   "pre-emptions): if no cell written by one thread is accessed by another, every thread observes under EVERY interleaving what "
+   "PARTIAL. Coq theorems (Props/C20.v, closed under the global context) over two models. (1) Shared scratch names: a thread is a "
+   "list of atomic read/write actions on shared cells, interleavings are the inductive shuffle of any number of threads (any number "
+   "of pre-emptions): if no cell written by one thread is accessed by another, every thread observes under EVERY interleaving what "
    "it observes alone (C20_private_safe, induction over the shuffle); the same when all writes to a cell store one constant "
    "written before it is read (C20_idempotent_write_safe); a write .. re-read pattern with a foreign write possible in between "
-   "has a constructed schedule whose observation occurs in no sequential order (C20_witness, C20_find_race_sound). The ordered "
-   "accesses of every collection validator to attributes of shared Field objects are regenerated from the AST on every run "
-   "(Gen/SharedAccess.v), cross-checked dynamically by instrumenting Field.__setattr__, and classified by these theorems; a "
-   "deterministic scheduler (real threads under sys.settrace) explores all schedules with <= 2 (thorough 3) pre-emptions at the "
-   "table's lines over every field kind and compares each thread's outcome with its sequential outcome; model traces are "
-   "compared with real traces inside Coq. Atomicity grain is the source line.",
-   "Trusted: Coq kernel + vm_compute; access-list recogniser harness/genmods/shared_access.py (fail closed); harness/sched.py; "
-   "CPython threading/settrace; pre-emption only at source lines named by the table and the mapper-cache lines.",
-   "Coq proof (all interleavings by induction over the shuffle relation, witness construction) + generated access lists + "
-   "deterministic schedule exploration and trace correspondence in vm_compute")
+   "has a constructed schedule whose observation occurs in no sequential order (C20_witness, C20_find_race_sound). (2) Shared "
+   "get-or-compute caches (Global/Cache.v: one slot, any number of threads each running a protocol of lookups/stores/clears, any "
+   "schedule): if every store of every protocol stores the completely computed value, every thread that returns, returns the value "
+   "it returns alone (C20_cache_final_safe, C20_cache_final_alone; invariant over all schedules); a protocol whose first store puts "
+   "anything else into the slot (a placeholder, a partial value) has a constructed schedule under which a second thread returns that "
+   "value (C20_cache_placeholder_witness); the decidable classification is sound both ways (C20_cache_classified_safe/_racy); a "
+   "thread scheduled often enough HAS returned the computed value (C20_cache_final_complete); the slots of different keys are "
+   "independent, so all of this holds for the whole dictionary (C20_cache_keys_independent, C20_cache_keyed_final_safe). (3) Several "
+   "fields / nested classes (Global/Compose.v, ClassModel.v): safety composes over disjoint cells and is invariant under renaming of "
+   "cells (C20_compose_safe, C20_shift_invariant), hence a class all of whose fields' generated access lists are classified safe is "
+   "safe under every interleaving of operations that validate all its fields (C20_class_safe_all_schedules; decided per class "
+   "profile in vm_compute and required to agree with the per-field verdicts). "
+   "Generated every run from the AST: the ordered accesses of every collection validator to attributes of shared Field objects "
+   "(Gen/SharedAccess.v), the protocol of every module-level container mutated inside a function, of every lru_cache function and of "
+   "every lazily installed Field attribute, and the attributes functions install on class objects (Gen/CacheAccess.v); both tables "
+   "are classified by the theorems in vm_compute and cross-checked dynamically (writes to Field objects at table lines only; a census "
+   "of ALL module-level/class-level state the operations write; logged real cache accesses are runs of the generated protocol and a "
+   "FINAL store stores the very object that is returned - compared inside Coq). On the implementation: a deterministic scheduler "
+   "(real threads under sys.settrace) explores (a) all schedules with <= 2 (thorough 3) pre-emptions at the tables' lines over 27 "
+   "field kinds x 7-8 operation tuples, (b) one pre-emption at EVERY line boundary inside typedpy (quick: first and last occurrence "
+   "of each distinct source line per operation; thorough: two occurrences each end + sampled two-pre-emption and three-thread "
+   "schedules) over 9 class profiles (dict/camel/lower/list/nested/function mappers, deserialization mappers, FastSerializable, "
+   "enum/optional/default, trusted simple classes, inheritance/immutable/additional properties, wrappers) and the 27 field kinds, "
+   "construct/deserialize/setattr/serialize entry points, valid inputs and inputs invalid in a different field per thread, classes "
+   "COLD (declared afresh per schedule: every cache empty) and WARM; each thread's result / exception class / named field is compared "
+   "with the same operation run alone; the models' witness schedules are replayed exactly. Atomicity grain is the source line.",
+   "Trusted: Coq kernel + vm_compute; recognisers harness/genmods/shared_access.py and cache_access.py (fail closed: AUnrecognised / "
+   "COther); FINAL-store recognition is syntactic (stored name = returned name, untouched in between) and dynamically cross-checked; "
+   "lru_cache is CPython's; harness/sched.py and harness/c20lines.py (schedulers), CPython threading/settrace; the cache theorems are "
+   "about one key's slot (keys are independent dict entries); three or more pre-emptions and bytecode-level pre-emption are outside "
+   "the explored schedules; F15 (Array/Deque.Each, Tuple.Uniform) is a listed open finding, attributed per field by the model's "
+   "classification of that field's declaration.",
+   "Coq proof (all interleavings by induction over the shuffle relation / invariant over all schedules of the cache model, witness "
+   "constructions) + generated access lists and cache protocols + deterministic schedule exploration at every line boundary and "
+   "trace correspondence in vm_compute")
 
 _c("C13",
    "Coq theorems (Props/C13.v, closed under the global context) over an executable model of the annotation/assignment conversion "
